@@ -5,7 +5,7 @@ dst=/verif/seeded/$prop-$name
 mkdir -p $dst/demo
 cp $src/patch.diff $dst/
 [ -f $src/demo.md ] && cp $src/demo.md $dst/
-for f in $(cd $src && find . -maxdepth 4 \( -name '*_test.go' -o -name 'run.sh' -o -name 'main.go' -o -name '*.graphql' -o -name '*.graphqls' -o -name 'gqlgen.yml' -o -name 'go.mod' \) -not -path '*/graph/generated*' | head -30); do mkdir -p $dst/demo/$(dirname $f); cp $src/$f $dst/demo/$f; done
+for f in $(cd $src && find . -maxdepth 4 \( -name "*_test.go" -o -name "*.go.txt" -o -name 'run.sh' -o -name 'main.go' -o -name '*.graphql' -o -name '*.graphqls' -o -name 'gqlgen.yml' -o -name 'go.mod' \) -not -path '*/graph/generated*' | head -30); do mkdir -p $dst/demo/$(dirname $f); cp $src/$f $dst/demo/$f; done
 python3 - "$src/meta.json" "$dst/meta.json" "$prop" "$result" <<'PY'
 import json,sys
 try: m=json.load(open(sys.argv[1]))
